@@ -230,7 +230,7 @@ def part_rejects(rec):
 def version_file_values(rec, content):
     import ncs.build as nb
     p = drive.fresh(rec.tmpdir(), ".VERSION")
-    with open(p, "w") as fh:
+    with open(p, "w", newline="") as fh:
         fh.write(content)
     try:
         return dict(nb.read_version_file(p))
@@ -269,6 +269,22 @@ def part_version_files(rec, shard, nshards):
             if sextra is not None:
                 block += f"SYSCTRL_VERSION_EXTRA = {sextra}\n"
             content = block + content if ti % 4 == 1 else content + block
+        # the same entries as another platform's tools write them: no final newline, CRLF line ends, blanks around the
+        # values, comment lines, another order of the lines
+        style = ti % 6
+        if style == 1:
+            content = content.rstrip("\n")
+        elif style == 2:
+            content = content.replace("\n", "\r\n")
+        elif style == 3:
+            content = "\n".join(ln.replace(" = ", "  =   ") + "  " for ln in content.splitlines()) + "\n"
+        elif style == 4:
+            content = "# generated\n\n" + content.replace("\n", "\n# comment\n", 1)
+        elif style == 5:
+            lines_ = content.splitlines()
+            r.shuffle(lines_)
+            content = "\n".join(lines_)
+        rec.count(f"version-file-style:{['plain', 'no-final-newline', 'crlf', 'blanks', 'comments', 'shuffled-no-final-newline'][style]}")
         case = {"kind": "version-file", "content": content}
         try:
             vals = version_file_values(rec, content)
